@@ -217,7 +217,8 @@ def main(argv=None):
             print('KNOWN-FINDING: property=%s %s %s [%s] %s' % (prop, o['rule'], o['subject'], o['disc'], k.get('what', '')))
         else:
             new.append(o)
-    os.makedirs(os.path.join(VERIF, 'replays'), exist_ok=True)
+    rdir = os.environ.get('STV_REPLAY_DIR') or os.path.join(VERIF, 'replays')
+    os.makedirs(rdir, exist_ok=True)
     for n, o in enumerate(new):
         print('-' * 78)
         print('rule      : %s' % o['rule'])
@@ -229,7 +230,7 @@ def main(argv=None):
         print('finding   : %s' % o['detail'])
         if 'witness' in o:
             print('witness   : %s' % (o['witness'],))
-        rp = os.path.join(VERIF, 'replays', '%s_%d.json' % (prop, n))
+        rp = os.path.join(rdir, '%s_%d.json' % (prop, n))
         with open(rp, 'w') as fp:
             json.dump(dict(property=prop, rule=o['rule'], subject=o['subject'], disc=o['disc'], loc=o['loc'],
                            detail=o['detail'], witness=o.get('witness')), fp, indent=1)
